@@ -510,7 +510,7 @@ def strat_read(tier):
 
 PARTS = [
     Part("save", check_save, lambda tier: strat_save(tier), quick=1500, thorough=30000, min_nontrivial_frac=0.3),
-    Part("plot_contour", check_plot_contour, strat_plot_contour, quick=400, thorough=6000, shrink_quick=False, min_nontrivial_frac=0.3),
+    Part("plot_contour", check_plot_contour, strat_plot_contour, quick=400, thorough=6000, shrink_quick=False, min_nontrivial_frac=0.25),
     Part("fitted_plots", check_fitted_plots, lambda tier: strat_fitted(tier), quick=96, thorough=2000, shrink=False, min_per_shard=2),
-    Part("read", check_read, strat_read, quick=300, thorough=5000, min_nontrivial_frac=0.3),
+    Part("read", check_read, strat_read, quick=300, thorough=5000, min_nontrivial_frac=0.25),
 ]
